@@ -431,6 +431,10 @@ class Result:
         for k, (fd, n) in sorted(self.known.items()):
             print("KNOWN-FINDING: property=%s %s: %s (%d occurrences this run)" % (self.pid, k, fd["what"], n))
         if self.violations:
+            import collections
+            cnt = collections.Counter(str(v.get("sig")) for v in self.violations)
+            with open(os.path.join(self.wd, "violation-signatures.json"), "w") as f:
+                json.dump(cnt.most_common(), f, indent=1)
             # one replay file per distinct signature, at most 5 reported
             seen = set()
             n = 0
